@@ -96,6 +96,18 @@ def run_case(case):
                 if spec == MC.bound_specs(tier)[0] and pname in ("soft", "e0"):
                     outcome.append([name, pname, sorted((str(k), round(v, 12)) for k, v in got.items())])
             # cross-check with MetricFrame for r = 1 (hard predictors e_0 and all-one)
+            if spec == MC.bound_specs(tier)[0]:
+                # further bound forms, checked for index and bound() only (cheap): the configured slack must be reported verbatim, incl. 0
+                for ls in (("diff", 0.0, None), ("diff", 0.1, None), ("diff", 0.25, None), ("ratio", 1.0, 0.0), ("ratio", 1.0, 0.05), ("ratio", 0.9, 0.1)):
+                    out["evals"] += 1
+                    try:
+                        m2, _, slack2 = MC.load(name, ls, y, a, c)
+                        b2 = m2.bound()
+                    except Exception as e:
+                        V.append(viol("C06:%s:load_data-raises-%s" % (name, type(e).__name__), "%s%r.load_data raised %r (%s)" % (name, ls, e, snipbase)))
+                        continue
+                    if set(tuple(t) for t in b2.index) != set(ridx) or any(not close(v, slack2, 0) for v in b2.values):
+                        V.append(viol("C06:%s:bound" % name, "%s%r: bound() = %r, configured slack %r (%s)" % (name, ls, sorted(set(b2.values.tolist())), slack2, snipbase), slack2, None))
             if ratio == 1.0 and spec[0] == "default":
                 for pname, h in (preds[2:3] if tier == "quick" else preds[1:3]):
                     out["classes"].add("metricframe_crosscheck")
